@@ -254,6 +254,42 @@ func init() {
 						}
 					}
 				}
+				// a worker result read BY POSITION (asyncBlocks[k], not inside a loop over all of
+				// them) means "the k-th block of the table" only after the sort
+				if fn.Parent() != nil {
+					continue // comparator closures of the sort itself
+				}
+				m := 0
+				for _, b := range fn.Blocks {
+					for _, in := range b.Instrs {
+						ia, ok := in.(*ssa.IndexAddr)
+						if !ok || !derivedFromField(ia.X, ab) {
+							continue
+						}
+						if _, isPhi := stripConv(ia.Index).(*ssa.Phi); isPhi {
+							continue // iteration over all elements
+						}
+						if isNonNegIndex(ia.Index) {
+							if _, isC := constInt(ia.Index); !isC {
+								continue
+							}
+						}
+						key := fmt.Sprintf("%s|asyncBlocks[k]#%d", funcName(fn), m)
+						m++
+						what := "a worker result is addressed by position only after the results were sorted by offset"
+						blk := map[ssa.Instruction]bool{}
+						for _, s := range sorts {
+							blk[s] = true
+						}
+						if len(sorts) == 0 {
+							r.bad(key, p.Rel(ia.Pos()), what, "asyncBlocks is indexed by position in "+funcName(fn)+", which never sorts it: with several workers the last element is the last block to ARRIVE, not the last block of the table")
+						} else if path, reach := reachAfter(fn, nil, ia, nil, blk); reach {
+							r.bad(key, p.Rel(ia.Pos()), what, fmtPath("asyncBlocks is indexed by position before the sort: with several workers that is the block that happened to finish at that position", path))
+						} else {
+							r.ok(key, p.Rel(ia.Pos()), what)
+						}
+					}
+				}
 			}
 			return nil
 		},
